@@ -35,6 +35,8 @@ def run(ctx):
            cells=[('msel%d_len%d' % (s, n), ['msel == %d' % s, 'len(m) == %d' % n]) for s in range(4) for n in range(3)] +
                  ([('msel%d_len3_%s' % (s, hex(ord(c))), ['msel == %d' % s, 'len(m) == 3', 'm[0] == chr(%d)' % ord(c)]) for s in range(4) for c in 'GgEeTtPx'] if T else []),
            timeout=tmo, desc='BoundRoute.match_method on symbolic method text over {G g E e T t P x}: case-insensitive membership (set lookup realises the text, so the alphabet bounds the enumeration)'),
+        Ob('add_history', 'ob_add_history', '', packed=[('warm', 2, 'bool'), ('i0', 5), ('i1', 5), ('patt0', 3), ('patt1', 3)], cells=[('warm%d_i%d' % (w, i), [{'warm': w, 'i0': i}]) for w in range(2) for i in range(5)], timeout=tmo, confirm='confirm_add_history',
+           desc='a table built by the constructor and two add(entry, index) calls (index None/0/1/2/beyond) interleaved with requests: every request is answered by the first matching route of the CURRENT list'),
         Ob('method_norm', 'ob_method_norm', 'a: int, b: int, dup: bool', pre=['0 <= a <= 10', '0 <= b <= 10'], timeout=tmo,
            desc='Route(methods=[..]) normalisation: upper-cased, GET implies HEAD, unknown -> InvalidMethod'),
     ]
